@@ -387,7 +387,7 @@ class World(object):
           if p.transport.producerState == 'producing':
             lines = []
             for (m, t) in op[2]:
-              lines.append('%s %d %d\n' % (m, vcount[0], t))
+              lines.append('%s %d %s\n' % (m, vcount[0], ('%d' % t) if isinstance(t, int) else repr(float(t))))      # sub-second clients send fractions
               vcount[0] += 1
             h.chunks_delivered = getattr(h, 'chunks_delivered', 0) + 1
             try:
@@ -566,6 +566,7 @@ class World(object):
     h.end_tick = self.tick()
     h.final = {m: dict(v) for m, v in cache.items()}
     h.final_size = cache.size
+    h.final_held = sum(len(v) for v in cache.values())       # what is really there, whatever the counter says
     h.final_len = len(cache)
     # detach the scheduler: post-run work happens on the main thread
     self.vt.offset = sc.now
